@@ -1,12 +1,13 @@
 #!/bin/bash
 # try_seed.sh <seed-dir-name> <property> [tier]: run a check against a COPY of /repo with the seeded patch applied
-# (never touches /repo; separate build cache, evidence and replay dirs). Prints the tail of the check output.
+# (never touches /repo; separate build cache, evidence and replay dirs; SEED_BASE=<dir> uses another base tree than /repo). Prints the tail of the check output.
 S=$1; P=$2; T=${3:-quick}
-M=/tmp/mrepo/$S; rm -rf $M; mkdir -p /tmp/mrepo
-rsync -a --exclude='.git' /repo/ $M/
-( cd $M && patch -p1 -s < /verif/seeded/$S/patch.diff ) || { echo "patch failed"; exit 3; }
+M=/tmp/mrepo/$S-$P; rm -rf $M; mkdir -p /tmp/mrepo
+rsync -a --exclude='.git' ${SEED_BASE:-/repo}/ $M/
+HERE="$(cd "$(dirname "$0")/.." && pwd)"
+( cd $M && patch -p1 -s < $HERE/seeded/$S/patch.diff ) || { echo "patch failed"; exit 3; }
 # in-tree objects of the copy are stale but unused: lib/build.sh copies sources only
-VERIF_REPO=$M VERIF_CACHE=/var/tmp/mpir-verif-cache-mut-$S VERIF_EVIDENCE_DIR=/tmp/mrepo/ev-$S VERIF_REPLAY_DIR=/tmp/mrepo/rp-$S VERIF_SCRATCH=/var/tmp/mpir-verif-scratch-mut \
-  /verif/bin/check $P $T > /tmp/mrepo/$S.$P.out 2>&1
+VERIF_REPO=$M VERIF_CACHE=/var/tmp/mpir-verif-cache-mut-$S-$P VERIF_EVIDENCE_DIR=/tmp/mrepo/ev-$S VERIF_REPLAY_DIR=/tmp/mrepo/rp-$S VERIF_SCRATCH=/var/tmp/mpir-verif-scratch-mut \
+  $HERE/bin/check $P $T > /tmp/mrepo/$S.$P.out 2>&1
 echo "exit $? ($S vs $P $T)"; grep -E "VIOLATION|KNOWN|MACHINERY" /tmp/mrepo/$S.$P.out | head -5; tail -2 /tmp/mrepo/$S.$P.out
-rm -rf $M /var/tmp/mpir-verif-cache-mut-$S
+rm -rf $M /var/tmp/mpir-verif-cache-mut-$S-$P
